@@ -45,7 +45,7 @@ structure WFacts (sp : Spec) : Prop where
   start_ne : (startStates sp).isEmpty = false
   eoi_ok : ∀ s, s < numStates sp.t → (eoiChain sp.t (numStates sp.t + 1) (s : Int)).isSome = true
   inv_nonneg : 0 ≤ invalidAct sp
-  inv_tok : (tokenOf sp (invalidAct sp)).isSome = true
+  inv_tok : ∃ t, tokenOf sp (invalidAct sp) = some t ∧ t ≠ 0
   space_ok : sp.spaceActions.contains (invalidAct sp) = false
   class_ok : ∀ a m, (a, m) ∈ sp.classActions →
     isInvalid sp a = false ∧ keysNodup m = true ∧ ∀ k x, (k, x) ∈ m → actOk sp [] x = true
@@ -56,7 +56,7 @@ theorem wfacts_of (sp : Spec) (h : tablesWF sp [] = true) : WFacts sp := by
   obtain ⟨⟨⟨⟨⟨⟨⟨⟨⟨⟨⟨⟨h1, h2⟩, h3⟩, h4⟩, h5⟩, h6⟩, h7⟩, h8⟩, h9⟩, h10⟩, h11⟩, h12⟩, h13⟩ := h
   simp only [Tables.wf, Bool.and_eq_true, decide_eq_true_eq] at h1
   obtain ⟨⟨⟨⟨⟨⟨w1, _⟩, _⟩, _⟩, w5⟩, w6⟩, w7⟩ := h1
-  refine ⟨w1, h2, h3, ?_, ?_, ?_, h6, h9, h10, h11, h4, h5, h12, ?_⟩
+  refine ⟨w1, h2, h3, ?_, ?_, ?_, h6, h9, h10, h11, h4, ?_, h12, ?_⟩
   · intro i e hg
     have a := getI_all _ _ w5 i e hg
     have b := getI_all _ _ h7 i e hg
@@ -76,6 +76,9 @@ theorem wfacts_of (sp : Spec) (h : tablesWF sp [] = true) : WFacts sp := by
     have b := getI_all _ _ h8 i c hg
     simp only [Bool.and_eq_true, decide_eq_true_eq] at a
     exact ⟨a.1, a.2, b⟩
+  · cases ht : tokenOf sp (invalidAct sp) with
+    | none => rw [ht] at h5; simp at h5
+    | some t => rw [ht] at h5; exact ⟨t, rfl, by simpa using h5⟩
   · intro a m hm
     have := h13 (a, m) hm
     simp only [Bool.and_eq_true, Bool.not_eq_true', List.all_eq_true] at this
